@@ -1,7 +1,8 @@
 //@ crate: grin_core
 //@ target: core/src/core/pmmr/segment.rs
 //@ profile: release-arith
-//@ assume: Kani checks arithmetic overflow with debug semantics and stops a path at a wrap; wraps are recorded (evidence: arithmetic_wraps_not_explored_beyond) and behaviour after a wrap is NOT explored
+//@ assume: Kani checks arithmetic overflow with debug semantics and stops a path at a wrap; a wrap at a site listed under wraps_known is recorded (evidence: arithmetic_wraps), any other wrap is replayed natively with wrapping arithmetic -- a panic there is a violation, otherwise the harness is undecided
+//@ wraps_known: attempt to multiply with overflow @ core::pmmr::segment::SegmentIdentifier::leaf_offset
 //@ assume: mmr_size >= 1 (the archive header's MMR sizes; mmr_size = 0 makes `mmr_size - 1` wrap)
 //@ assume: HashWriter::finalize / into_hash stubbed to a constant digest: hash values reach control flow only in the final root comparison, whose two outcomes both return; Blake2b::update stubbed to a no-op
 //@ assume: prunable path (bitmap = Some) not covered: croaring::Bitmap is C code behind FFI
